@@ -212,7 +212,7 @@ pub fn gen_string(rng: &mut Rng) -> String {
 }
 
 pub fn random(ctx: &Ctx) -> Report {
-    let n = ctx.n(100_000, 10_000_000);
+    let n = ctx.n(2_000_000, 1_000_000_000);
     par_cases(ctx, "random", n, ctx.secs(20, 400), |i, rng, rep| {
         let s = gen_string(rng);
         if i < 3 {
